@@ -43,11 +43,14 @@ func TestProp(t *testing.T) {
 		"Ticket.DecryptEncPart+GetPACType with an override): Marshal must reproduce the received bytes and the encoded fields must equal those of a second untouched decoding, whatever the outcome of the use; " +
 		"(g) every type with a KerberosFlags field (AS-REQ, TGS-REQ, KDC-REQ-BODY, EncKDCRepPart, AP-REQ, KRB5 token; EncTicketPart via Ticket.DecryptEncPart and NewTicket) with flags of every bit length 33..72 and some up to 400 bits whose last bit is set " +
 		"(RFC 4120 5.2.8 minimal encoding, non-zero unused-bits octet unless a multiple of 8): directions a, b, c against the reference encoding with its BIT STRING element extended; " +
+		"(h) the entry points that stamp a message with the current time (NewKRBError, NewAuthenticator, GetPAEncTSEncAsnMarshalled, NewASReqForTGT, NewTGSReq incl. its PA-TGS-REQ authenticator, kadmin.ChangePasswdMsg AP-REQ authenticator and EncKrbPrivPart, " +
+		"spnego.NewKRB5TokenAPREQ authenticator) under the virtual clock at instants on every boundary of the microsecond grid (first/last nanosecond of a second and of a microsecond, both sides of the half microsecond) in ordinary seconds and at the end of minutes, days, Februaries, years and at the 2^31 second: " +
+		"the strict reference decoder must accept the encoding, Microseconds fields must be in 0..999999 and equal to the struct's value, KerberosTime a whole UTC second, and time+usec less than one second from the virtual instant; " +
 		"(e) asn1tools length helpers against ref/der.Len; (f) SetFlag/IsFlagSet/UnsetFlag against the reference flag encoding. distinct = case key; non-trivial = all (each compares encodings or values)")
 	r.Assume("ref/kmsg strict decoders and encoders (self-tested against the MIT krb5 reference encodings and captured SPNEGO tokens in `go test ./ref/kmsg`, and at start-up by re-encoding round trips); ref/kcrypto self-tested against RFC vectors")
 	r.Note("observe-only (not judged): re-encoding and field equality of reference encodings in which an OPTIONAL field is present with a zero/empty value (gokrb5 structs use the zero value for 'absent'); " +
 		"NegTokenResp without negState (RFC 4178 OPTIONAL, gokrb5 field is mandatory: decode outcome is counted only); EncTGSRepPart ([APPLICATION 26]) re-encoded by EncKDCRepPart.Marshal, which always writes [APPLICATION 25]; " +
-		"all-zero elements (type 0, empty data) inside OPTIONAL SEQUENCE OF fields; KerberosFlags longer than 32 bits ending in zero bits (not the RFC's minimal encoding) and shorter than 32 bits; the outcome (accept/reject) of the uses in (d)")
+		"all-zero elements (type 0, empty data) inside OPTIONAL SEQUENCE OF fields; KerberosFlags longer than 32 bits ending in zero bits (not the RFC's minimal encoding) and shorter than 32 bits; the outcome (accept/reject) of the uses in (d); in (h) whether a stamped time is truncated or rounded to the microsecond and a distance of less than one second from the instant")
 	r.Note("decode-only in gokrb5 (no Marshal): AP-REP and KRB-ERROR KRB5 mech tokens, APRep, EncAPRepPart -> only reference-encoded bytes are unmarshalled and compared field by field. encode-only (no Unmarshal): kadmin.ChangePasswdData -> only direction (b)")
 	r.Note("not exercised: times with fractional seconds or non-UTC zones (KerberosTime has none), integers outside the RFC range of the field (negative UInt32, Microseconds > 999999), OID arcs >= 2^28; JDK second-opinion decoder of DESIGN.md is not wired into this check")
 
@@ -57,6 +60,7 @@ func TestProp(t *testing.T) {
 	decodeOnlyTasks(r, add)
 	probeTasks(r, add)
 	constructorTasks(r, add)
+	clockTasks(t, r, add)
 	opsTasks(t, r, add)
 	lengthTasks(r, add)
 	flagTasks(r, add)
@@ -89,6 +93,7 @@ func TestProp(t *testing.T) {
 	r.Require("constructor_krberror_conformant", 10)
 	r.Require("constructor_authenticator_conformant", 10)
 	r.Require("constructor_asreq_conformant", 10)
+	clockRequires(r)
 	r.Require("len_equal", 65000)
 	r.Require("apptag_equal", 200)
 	r.Require("flag_bits_checked", 32)
